@@ -777,3 +777,17 @@ Proof.
     pose proof (slash_nonneg s e (reason_prm avs op ev pw f inf) Hnn Hs) as K.
     destruct (slash s e (reason_prm avs op ev pw f inf)). exact K.
 Qed.
+
+(* ------------------------------------------------------------------ scalar form for the kernel tie (Gen/KernelsTie.v) ---- *)
+
+Lemma slash_from_undel_scalar p r :
+  let k := slash_from_undel_k (u_amount r) (u_actual r) p in
+  u_actual (fst (slash_from_undel p r)) = snd k /\
+  rec_eqb (fst (slash_from_undel p r)) (set_actual r (snd k)) = true /\
+  snd (slash_from_undel p r) = match fst k with Some a => [(u_staker r, u_asset r, a)] | None => [] end.
+Proof.
+  unfold slash_from_undel, slash_from_undel_k.
+  destruct (Z.eqb_spec (u_actual r) 0) as [E|E]; simpl.
+  - split; [reflexivity|]. split; [|reflexivity]. apply rec_eqb_fields; reflexivity.
+  - destruct (slash_amt p (u_amount r) >=? u_actual r); simpl; (split; [reflexivity|]); (split; [apply rec_eqb_refl|reflexivity]).
+Qed.
